@@ -7,3 +7,6 @@ import Peppi.Props.C20
 #print axioms Peppi.Props.C20.parseU8_iff
 #print axioms Peppi.Props.C20.Ver_parse_iff
 #print axioms Peppi.Props.C20.Ver_parse_total
+#print axioms Peppi.Props.C20.Ver_gte_patch
+#print axioms Peppi.Props.C20.Ver_lt_patch
+#print axioms Peppi.Props.C20.Ver_gte_or_lt
